@@ -36,6 +36,14 @@ pub struct WarmOutcome {
     pub final_best: Option<f64>,
     /// minimum value the second objective function returned during the second run
     pub min_evaluated_in_second_run: Option<f64>,
+    /// evaluation counter after the second run / objective calls made during it
+    pub second_run_reported_evaluations: u32,
+    pub second_run_objective_calls: u64,
+    /// passes of the main loop observed in the second run / requested
+    pub second_run_passes: u32,
+    pub second_run_requested_passes: u32,
+    /// iteration counter after the second run
+    pub second_run_iterations: u32,
 }
 
 /// Pairs (first, second) of objective functions; the first ones reach lower values than the second can.
@@ -135,7 +143,7 @@ pub fn warm_restart(rng: &mut SplitMix64, k: usize) -> WarmOutcome {
         ),
     };
     let _ = initialization::Empty::new::<Real>;
-    let mut out = WarmOutcome { variant, first_fn, second_fn, dim, seed, failed: None, stale: Vec::new(), hook_events: 0, individuals_audited: 0, final_best: None, min_evaluated_in_second_run: None };
+    let mut out = WarmOutcome { variant, first_fn, second_fn, dim, seed, failed: None, stale: Vec::new(), hook_events: 0, individuals_audited: 0, final_best: None, min_evaluated_in_second_run: None, second_run_reported_evaluations: 0, second_run_objective_calls: 0, second_run_passes: 0, second_run_requested_passes: n2, second_run_iterations: 0 };
     let mut state = match run_observed_prepared(&first, &a, seed, false, None, |_| {}, |_, _, _| {}) {
         Ok(Ok(s)) => s,
         Ok(Err(e)) => {
@@ -153,10 +161,20 @@ pub fn warm_restart(rng: &mut SplitMix64, k: usize) -> WarmOutcome {
         events: u64,
         audited: u64,
         stale: Vec<(String, String, String)>,
+        /// passes of the first loop that starts in the second run (its main loop)
+        main_loop: Option<usize>,
+        main_loop_passes: u32,
     }
     let rec = std::sync::Arc::new(Mutex::new(Rec::default()));
     let rec2 = rec.clone();
     install(&mut state, move |ev, p: &Real, st| {
+        if let StepEvent::LoopPass { start, looop } = ev {
+            let mut r = rec2.lock().unwrap();
+            if start && *r.main_loop.get_or_insert(looop) == looop {
+                r.main_loop_passes += 1;
+            }
+            return;
+        }
         if let StepEvent::BlockChild { before: false, component, .. } = ev {
             let mut r = rec2.lock().unwrap();
             r.events += 1;
@@ -184,9 +202,13 @@ pub fn warm_restart(rng: &mut SplitMix64, k: usize) -> WarmOutcome {
     }
     out.final_best = state.best_objective_value().map(|o| o.value());
     out.min_evaluated_in_second_run = b.instr().min_value();
+    out.second_run_reported_evaluations = state.evaluations();
+    out.second_run_objective_calls = b.instr().calls();
+    out.second_run_iterations = state.iterations();
     let _ = state.remove::<mahf::verif::StepObserverSlot<Real>>();
     let mut r = rec.lock().unwrap();
     out.hook_events = r.events;
+    out.second_run_passes = r.main_loop_passes;
     out.individuals_audited = r.audited;
     out.stale = std::mem::take(&mut r.stale);
     out
